@@ -22,6 +22,10 @@ struct Renaming {
     bound: HashSet<Var>,
     /// The renamings currently in scope, innermost last.
     scope: Vec<(Var, Var)>,
+    /// Calls of the first top-level function are redirected to the second one.
+    redirect: Option<(String, String)>,
+    /// Whether a call has been redirected.
+    redirected: bool,
 }
 
 impl Renaming {
@@ -110,6 +114,12 @@ impl Renaming {
                 r#let.into()
             }
             Term::Call(mut call) => {
+                if let Some((from, to)) = &self.redirect
+                    && call.name == *from
+                {
+                    call.name.clone_from(to);
+                    self.redirected = true;
+                }
                 self.rename_args(&mut call.args);
                 call.into()
             }
@@ -157,7 +167,17 @@ impl Renaming {
 
 /// This function renames the binders in the body of a top-level function such that no name is
 /// bound more than once in the function (including its parameters).
-pub fn make_binders_distinct(mut def: Def) -> Def {
+pub fn make_binders_distinct(def: Def) -> Def {
+    rename_def(def, None).0
+}
+
+/// This function redirects all calls of the top-level function `from` in the body of a top-level
+/// function to the top-level function `to`. It returns whether there was such a call.
+pub fn redirect_calls(def: Def, from: &str, to: &str) -> (Def, bool) {
+    rename_def(def, Some((from.to_owned(), to.to_owned())))
+}
+
+fn rename_def(mut def: Def, redirect: Option<(String, String)>) -> (Def, bool) {
     let bound = def.context.vars();
     let mut all_names = bound.clone();
     def.body.used_binders(&mut all_names);
@@ -166,7 +186,9 @@ pub fn make_binders_distinct(mut def: Def) -> Def {
         all_names,
         bound,
         scope: Vec::new(),
+        redirect,
+        redirected: false,
     };
     def.body = renaming.rename(def.body);
-    def
+    (def, renaming.redirected)
 }
